@@ -115,22 +115,30 @@ structure TState where
 
 def TState.init : TState := ⟨[], [], none, none, [], []⟩
 
+/-- `candidate in generator and len(generator[candidate] & visited) > 0` -/
+def prunedBy (gen : List (Term × List Term)) (visited : List Term) (n : Term) : Bool :=
+  match dget gen n with
+  | some grp => grp.any (fun x => decide (x ∈ visited))
+  | none => false
+
+/-- `if last_coloring and self._is_automorphism(coloring, last_coloring, experimental): generator = …` -/
+def updateGen (g : Graph) (cs : List Color) (last : Option (List Color)) (exp : List Color)
+    (gen : List (Term × List Term)) : List (Term × List Term) :=
+  match last with
+  | some l => if isAutomorphism g cs l exp then createGenerator l exp gen else gen
+  | none => gen
+
 /-- body of `for candidate, color in candidates` in `_traces` -/
 def tracesStep (H : List Item → Nat) (HT : Term → Nat) (g : Graph) (efuel : Nat) (cs : List Color)
     (st : TState) (cand : Term × Color) : TState :=
-  let pruned := match dget st.gen cand.1 with
-    | some grp => grp.any (fun x => decide (x ∈ st.visited))
-    | none => false
-  if pruned then { st with visited := st.visited ++ [cand.1] }
+  if prunedBy st.gen st.visited cand.1 then { st with visited := st.visited ++ [cand.1] }
   else
     let ind := individuate cs cand.2 cand.1
     let refined := refineWith H HT g ind.1 ind.2
     let sc := score H HT refined
     let exp := experimentalPath H HT g efuel ind.1
-    let gen' := match st.last with
-      | some l => if isAutomorphism g cs l exp then createGenerator l exp st.gen else st.gen
-      | none => st.gen
-    let st' : TState := { st with visited := st.visited ++ [cand.1], last := some exp, gen := gen' }
+    let st' : TState := { st with visited := st.visited ++ [cand.1], last := some exp,
+                                  gen := updateGen g cs st.last exp st.gen }
     match st.bestScore with
     | none => { st' with best := [refined], bestExp := [exp], bestScore := some sc }
     | some bs =>
@@ -153,19 +161,21 @@ def maxLeaf (key : List Color → List (List Nat)) : List Color → List (List C
   | cur, [] => cur
   | cur, x :: xs => if leafLe (key x) (key cur) then maxLeaf key cur xs else maxLeaf key x xs
 
+/-- `leaves[0]` if there is one leaf, `max(leaves, key=self._leaf_key)` otherwise (`dflt` only if there is none) -/
+def pickLeaf (key : List Color → List (List Nat)) (dflt : List Color) : List (List Color) → List Color
+  | [] => dflt
+  | l :: ls => maxLeaf key l ls
+
 /-- `_traces(coloring)`; the second component counts the calls (`stats["individuations"]`) -/
 def traces (H : List Item → Nat) (HT : Term → Nat) (g : Graph) (efuel : Nat) : Nat → List Color → List Color × Nat
   | 0, cs => (cs, 1)
   | fuel + 1, cs =>
     let st := (candidates cs).foldl (tracesStep H HT g efuel cs) TState.init
     let direct := st.best.filter allDiscrete
-    let sub := if direct.isEmpty then st.best.map (traces H HT g efuel fuel) else []
-    let leaves := if direct.isEmpty then sub.map (·.1) else direct
-    let calls := 1 + (sub.map (·.2)).foldl (· + ·) 0
-    match leaves with
-    | [] => (cs, calls)
-    | [l] => (l, calls)
-    | l :: ls => (maxLeaf (leafKey H HT g) l ls, calls)
+    if direct.isEmpty then
+      let sub := st.best.map (traces H HT g efuel fuel)
+      (pickLeaf (leafKey H HT g) cs (sub.map (·.1)), 1 + (sub.map (·.2)).foldl (· + ·) 0)
+    else (pickLeaf (leafKey H HT g) cs direct, 1)
 
 /-- the final colouring of `canonical_triples` and the number of `_traces` calls -/
 def finalColoring (H : List Item → Nat) (HT : Term → Nat) (g : Graph) : List Color × Nat :=
